@@ -108,10 +108,41 @@ func GenC05(r *core.Rand, tier string) core.Schedule {
 	}
 	created := cfg.InitialTables
 	startedF := cfg.FollowerFirst
+	if !big && r.Chance(0.15) {
+		// take-over scenario: several follower nodes, a slow network, a leader log that is compacted
+		// before the followers come up (so the first lease holder has to recover from a snapshot, which
+		// takes until the other nodes have started the recovery shard), and a fault aimed at whoever
+		// holds the lease while that is going on; the rest of the schedule follows as usual
+		faulty = true
+		cfg.Followers = 3
+		cfg.FollowerFirst, startedF = false, true
+		cfg.SnapshotEntries = []uint64{5, 10}[r.Intn(2)]
+		cfg.CompactionOverhead = []uint64{0, 1, 3}[r.Intn(3)]
+		cfg.RecoveryTypes = cfg.RecoveryTypes[:0]
+		for i := 0; i < cfg.Leaders+cfg.Followers; i++ {
+			cfg.RecoveryTypes = append(cfg.RecoveryTypes, r.Intn(2))
+		}
+		steps = append(steps, Step{Op: "netdelay", Ms: []int{5, 50, 400, 400}[r.Intn(4)]})
+		for i, k := 0, r.Range(8, 16); i < k; i++ {
+			steps = append(steps, g.write(r.Intn(created), r.Intn(cfg.Leaders)))
+		}
+		if r.Chance(0.5) {
+			steps = append(steps, Step{Op: "snapshot", Shard: "table", T: r.Intn(created), Replica: 0})
+		}
+		steps = append(steps, Step{Op: "startfollowers"})
+		for i, k := 0, r.Range(1, 4); i < k; i++ {
+			steps = append(steps, Step{Op: "advance", Ms: []int{601, 1511, 4001, 9001}[r.Intn(4)]})
+			if r.Chance(0.5) {
+				steps = append(steps, g.write(r.Intn(created), r.Intn(cfg.Leaders)))
+			}
+		}
+		steps = append(steps, Step{Op: "stopholder", T: r.Intn(created), Cnt: r.Intn(3)})
+		n += len(steps)
+	}
 	for len(steps) < n {
-		w := []int{50, 22, 0, 0, 0, 0, 0, 0, 0, 0, 0}
+		w := []int{50, 22, 0, 0, 0, 0, 0, 0, 0, 0, 0, 0}
 		if faulty {
-			w = []int{50, 22, 4, 4, 3, 3, 3, 3, 2, 3, 2}
+			w = []int{50, 22, 4, 4, 3, 3, 3, 3, 2, 3, 2, 2}
 		}
 		switch r.Pick(w) {
 		case 0:
@@ -148,6 +179,9 @@ func GenC05(r *core.Rand, tier string) core.Schedule {
 			}
 		case 9:
 			steps = append(steps, Step{Op: "netdelay", Ms: []int{0, 5, 50, 400}[r.Intn(4)]})
+		case 11:
+			steps = append(steps, Step{Op: "stopholder", T: r.Intn(created), Cnt: r.Intn(3)})
+			steps = append(steps, Step{Op: "advance", Ms: []int{103, 1019, 5009, 9001}[r.Intn(4)]})
 		case 10:
 			ln := r.Intn(cfg.Leaders)
 			if cfg.Leaders > 1 {
